@@ -1576,5 +1576,31 @@ def rule_s(repo, chk):
                w or '')
 
 
+def rule_t(repo, chk):
+    chk.clause('C01.t', 'a string of the analysed text that is used as a path may contain a NUL character, for which every file-system call raises '
+                        'ValueError (not OSError): (1) the directory listing of path completion (api/file_name.py) is covered by a handler for '
+                        'ValueError as well as OSError; (2) sys.path entries detected in the analysed module (inference/sys_path._abs_path) are '
+                        'dropped when they contain NUL, before they can reach open()/stat() through the import machinery')
+    f = repo.find('jedi.api.file_name', 'complete_file_name')
+    calls = [c for c in calls_in(f) if norm(c.func) in ('os.scandir', 'os.listdir', 'scandir', 'listdir')]
+    chk.floor('C01.t', len(calls), 1, 'the directory listing in complete_file_name')
+    for c in calls:
+        caught = set()
+        for t in enclosing_handlers(repo.enclosing_stmt(c), f):
+            for h in t.handlers:
+                caught |= handler_types(h)
+        ok = bool(caught & {'ValueError', 'Exception', 'BaseException', '*'}) and bool(caught & {'OSError', 'Exception', 'BaseException', '*'})
+        chk.ob('C01.t', ok, c, '`%s` (path built from the string under the cursor) is covered by handlers for OSError and ValueError' % short(c),
+               'caught: %s' % sorted(caught))
+    g = repo.find('jedi.inference.sys_path', '_abs_path')
+    p0 = g.args.args[1].arg if len(g.args.args) > 1 else 'str_path'
+    uses = [x for x in own_nodes(g) if isinstance(x, ast.Call) and norm(x.func) in ('Path', 'os.path.join', 'os.path.abspath') and any(norm(a) == p0 for a in x.args)]
+    chk.floor('C01.t', len(uses), 1, 'the path construction in sys_path._abs_path')
+    for u in uses:
+        w = gate(g, u, lambda e, pol: (not pol) and isinstance(e, ast.Compare) and isinstance(e.ops[0], ast.In) and isinstance(e.left, ast.Constant)
+                 and e.left.value in ('\0', '\x00') and norm(e.comparators[0]) == p0)
+        chk.ob('C01.t', w is None, u, 'a detected sys.path entry becomes a path only if it contains no NUL character', w or '')
+
+
 RULES = [('C01.a', rule_a), ('C01.b', rule_b), ('C01.c', rule_c), ('C01.d', rule_d), ('C01.e', rule_e), ('C01.f', rule_f),
-         ('C01.g', rule_g), ('C01.h', rule_h), ('C01.i', rule_i), ('C01.j', rule_j), ('C01.k', rule_k), ('C01.l', rule_l), ('C01.m', rule_m), ('C01.n', rule_n), ('C01.o', rule_o), ('C01.p', rule_p), ('C01.q', rule_q), ('C01.r', rule_r), ('C01.s', rule_s)]
+         ('C01.g', rule_g), ('C01.h', rule_h), ('C01.i', rule_i), ('C01.j', rule_j), ('C01.k', rule_k), ('C01.l', rule_l), ('C01.m', rule_m), ('C01.n', rule_n), ('C01.o', rule_o), ('C01.p', rule_p), ('C01.q', rule_q), ('C01.r', rule_r), ('C01.s', rule_s), ('C01.t', rule_t)]
